@@ -122,3 +122,71 @@ func dlNative(which int, k []byte) {
 		verifAssert(verifEqBytes(bm.Marshal(), g.Marshal()), "ScalarBaseMult agrees with double-and-add")
 	}
 }
+
+// ---- pairing wrapper: identity arguments -----------------------------------------------------------
+// Miller loop and final exponentiation are uninterpreted functions of the operand coordinates; decided is
+// the wrapper's treatment of the point at infinity: Pair(P, Q) = 1 whenever P or Q is the identity, and
+// the exponentiated Miller value otherwise.
+
+func verifPairArgs(q *twistPoint, p *curvePoint) []byte {
+	out := make([]byte, 0, 12*32)
+	for _, g := range []*gfP{&q.x.x, &q.x.y, &q.y.x, &q.y.y, &q.z.x, &q.z.y, &p.x, &p.y, &p.z} {
+		out = verifGetGFp(out, g)
+	}
+	return out
+}
+
+func verifModel_miller(q *twistPoint, p *curvePoint) *gfP12 {
+	e := &GT{}
+	verifSetGT(e, verifUF("miller", 384, verifPairArgs(q, p)))
+	return e.p
+}
+
+func verifModel_finalExponentiation(in *gfP12) *gfP12 {
+	e := &GT{}
+	verifSetGT(e, verifUF("finalexp", 384, VerifGTBytes(&GT{in})))
+	return e.p
+}
+
+func verifH_c09_pair_identity() {
+	which := verifParam("which") // 0: both finite; 1: G1 argument at infinity; 2: G2 argument at infinity; 3: both
+	if !verifSymbolic() {
+		one := new(GT).SetOne()
+		k := verifBytes("k", 32)
+		k[0] &= 0x3f
+		k[31] |= 1
+		p, _ := new(G1).ScalarBaseMult(k)
+		q, _ := new(G2).ScalarBaseMult(k)
+		zero := make([]byte, 32)
+		p0, _ := new(G1).ScalarBaseMult(zero)
+		q0, _ := new(G2).ScalarBaseMult(zero)
+		verifAssert(verifEqBytes(Pair(p0, q).Marshal(), one.Marshal()), "e(O, Q) = 1")
+		verifAssert(verifEqBytes(Pair(p, q0).Marshal(), one.Marshal()), "e(P, O) = 1")
+		verifAssert(verifEqBytes(Pair(p0, q0).Marshal(), one.Marshal()), "e(O, O) = 1")
+		verifAssert(!verifEqBytes(Pair(p, q).Marshal(), one.Marshal()), "e(P, Q) != 1 for non-identity arguments")
+		verifReach("end")
+		return
+	}
+	p, q := &curvePoint{}, &twistPoint{}
+	for _, g := range []*gfP{&p.x, &p.y, &p.z, &q.x.x, &q.x.y, &q.y.x, &q.y.y, &q.z.x, &q.z.y} {
+		verifPutGFp(g, verifBytes("coord", 32))
+	}
+	if which == 1 || which == 3 {
+		p.z = gfP{}
+	} else {
+		verifAssume(p.z[0]|p.z[1]|p.z[2]|p.z[3] != 0)
+	}
+	if which == 2 || which == 3 {
+		q.z = gfP2{}
+	} else {
+		verifAssume(q.z.x[0]|q.z.x[1]|q.z.x[2]|q.z.x[3]|q.z.y[0]|q.z.y[1]|q.z.y[2]|q.z.y[3] != 0)
+	}
+	want := verifUF("finalexp", 384, verifUF("miller", 384, verifPairArgs(q, p)))
+	got := Pair(&G1{p}, &G2{q})
+	if which == 0 {
+		verifAssert(verifEqBytes(VerifGTBytes(got), want), "finite arguments: the exponentiated Miller value")
+	} else {
+		verifAssert(got.p.IsOne(), "an identity argument gives the identity of GT")
+	}
+	verifReach("end")
+}
